@@ -6,7 +6,7 @@ import re
 from gverif.common import die
 from gverif.props.c12_common import norm_lines, norm_list
 
-TYPES = ["int", "list[str]", "Optional[Foo]", "a.b.C"]
+TYPES = ["int", "list[str]", "Optional[Foo]", "a.b.C", "Literal['a: b']"]      # the last one contains a colon
 SPEC_KINDS = {"parameters", "other_parameters", "returns", "yields", "receives", "raises", "warns", "attributes", "functions", "classes", "modules", "deprecated", "examples"}
 
 
